@@ -1,5 +1,6 @@
 import HabuVerif.Proofs.C16Lines
 import HabuVerif.Props.C15
+import HabuVerif.Proofs.C16Line25b
 /-!
 # C16 — Returns respond to input changes the way tax law requires
 
@@ -13,7 +14,8 @@ Proved here, in exact cents, about the line programs REGENERATED from the workin
   refund-minus-owed = 25a + 25b + 25c + 26 + 32 − 24 in every state the solver returns, so each extra
   cent withheld moves it by exactly one cent when the other five lines keep their values.
 
-PARTIAL: the same invariance for the other per-payer totals (lines 1a, 2b, 3b, 25b, Schedule A/B …),
+Line 25b (tax withheld on Forms 1099-R, 1099-DIV, 1099-INT, 1099-G) has the same three theorems, see the end of this
+file.  PARTIAL: the same invariance for the other per-payer totals (lines 1a, 2b, 3b, Schedule A/B …),
 and the monotonicity of total tax in wages and deductions, are explored on real returns by the
 metamorphic oracle, not proved (the tax function itself is proved non-decreasing in C07).
 -/
@@ -361,3 +363,20 @@ end HabuVerif.C16
 #print axioms HabuVerif.C16.float_sum_lines_2021
 #print axioms HabuVerif.C16.float_sum_lines_2022
 #print axioms HabuVerif.C16.float_sum_lines_2023
+
+/-! ## Form 1040 line 25b (tax withheld on Forms 1099), `Proofs/C16Line25b.lean`
+
+`L25b.line25b_shape_2021/2/3` re-check on every run that the regenerated line 25b of each year is the
+four-fold chain `float(sum(1099-R box 4)) += … 1099-DIV … += … 1099-INT … += … 1099-G …; if > 0.001`.
+For every store (≤ 64 copies per form, amounts between 0 and 10^9 dollars, in cents):
+`L25b.line25b_total` — the line is exactly the cents total of all copies (a zero total is stored as
+`0.0`); `L25b.line25b_renumbering` — permuting the copies of each form leaves the stored double
+unchanged; `L25b.line25b_one_for_one` — one more cent withheld on ANY copy of ANY of the four forms is
+one more cent on line 25b, hence (`net_is_payments_minus_tax`) one more cent of refund-minus-owed. -/
+#print axioms HabuVerif.C16.L25b.line25b_shape_2021
+#print axioms HabuVerif.C16.L25b.line25b_shape_2022
+#print axioms HabuVerif.C16.L25b.line25b_shape_2023
+#print axioms HabuVerif.C16.L25b.eval_25b
+#print axioms HabuVerif.C16.L25b.line25b_total
+#print axioms HabuVerif.C16.L25b.line25b_renumbering
+#print axioms HabuVerif.C16.L25b.line25b_one_for_one
